@@ -13,6 +13,19 @@ CHECKS = {
  "C10": ("model_checking", "action property RefusedUnchanged in TLC + replay of every refused transition comparing the real object's full state before and after the throwing call",
          "Refused calls are self-loops of the specification; each is replayed on the real object, whose complete projected state before and after the throwing call must be identical (checked independently of the specification) and equal to the specification's state.",
          "same bounds as C05; alphabets contain partly invalid arguments (second new point duplicate, short frame, refused sets)", "6/C10"),
+
+ "C06": ("model_checking", "TLC action properties FrameStoreOK/ColumnsOK on MC_Frames (payload tags) + replay of every transition comparing all frames",
+         "Append / replace / extend and the column adders are action properties checked by TLC on every transition of the bounded instance (every data-set size up to the bound, every target index incl. count+1, distinguishable payloads); every transition is replayed on the real object and all stored frames are compared bit for bit.",
+         "quick: up to 2 frames, thorough: up to 3 frames, index up to count+1; 2 payload tags; one declared shape family (1-2 points, 1 channel, 2 sub-frames)", "6/C06"),
+ "C08": ("model_checking", "value-semantics TLA+ model with caller-side frame objects (CallerNew/CallerMutate/AddFrame by reference/EditStored) checked by TLC (CallerIndependent) + replay on real Frame objects mutated in place",
+         "The specification has value semantics: caller-side edits and in-place edits of one stored frame change nothing else. TLC explores every interleaving of handing over, mutating and re-submitting a caller frame object with appends, indexed stores, in-place edits and column adders; each transition is replayed with a real, long-lived Frame object mutated through the public non-const accessors.",
+         "one caller frame object, 2 payload tags, up to 2 (quick) / 3 (thorough) frames", "6/C08"),
+ "C09": ("model_checking", "TLC action properties ParamEditOK/LockOK + invariant ShapeRule on MC_Params; every (type, #values, dimension) triple of the alphabet replayed from every reachable state",
+         "Find-or-create group, replace-in-place-or-append, lock toggles and the typed setters are checked as action properties on all transitions; the shape predicate is enumerated over all (type, value count, dimension argument) triples of the bounded alphabet and each becomes an implementation test per reachable state.",
+         "quick: 0..2 values x 9 dimension arguments x 3 types; thorough: 0..3 values x 17 dimension arguments (up to 8 entries); byte type has no setter in the API (covered through files in C02/C04)", "6/C09"),
+ "C11": ("model_checking", "GetResult operator (position / first exact name / typed getter) with invariants LookupConsistent and NamesTrimmed in TLC; every (state, look-up) pair replayed and result + exception class compared",
+         "Every positional and by-name look-up and typed value getter is an action of the specification; TLC checks that by-name and positional look-ups agree and that stored names are trimmed in every reachable state, and every (state, query) pair incl. indices size, size+1, 2^32, 2^64-1 and absent / case-variant / space-padded names is executed on the real object.",
+         "container sizes 0..2; 2^32 and 2^64-1 as tokens; names given with trailing spaces through declaration, setter and naming constructor", "6/C11"),
 }
 NA = {
 }
